@@ -30,7 +30,7 @@ ASSUMPTIONS = ["purely sequential histories: the simulator contributes the opera
                "configure_agents/reset = cluster restart keeping the id counter), no schedule or clock is involved",
                "the enumeration is complete for the stated alphabet and length bound only"]
 FAULT_KINDS = ["agent_deletion", "reconfiguration", "failed_reconfiguration", "reset"]
-PROBES = ["nested_creation", "failed_reconfiguration", "query_after_deletion", "count_per_state_after_deletion", "delete_nonexistent_id", "two_types_interleaved_ids",
+PROBES = ["creation_inside_reset_cache_callback", "callback_failed_inside_reset_cache", "nested_creation", "failed_reconfiguration", "query_after_deletion", "count_per_state_after_deletion", "delete_nonexistent_id", "two_types_interleaved_ids",
           "configure_after_deletion"]
 EXHAUSTIVE = {"quick": False, "thorough": False}
 
@@ -137,6 +137,15 @@ def generate(spec):
             ops.append({"op": "configure_bad", "spec": good[:pos] + [["ghost", 1]] + good[pos:]})
             n_live_est = 3
             next_id += 4
+        elif r < 0.84:
+            # the agents' reset_cache() callback: a one-shot behaviour for one agent (creates another agent / fails), fired
+            # by a later Model.reset_cache() - never by reset(), which discards the agents
+            if rng.random() < 0.7:
+                ops.append({"op": "hook", "id": rng.randrange(0, max(1, next_id)), "do": "create", "type": rng.choice(["a", "b"])})
+            else:
+                ops.append({"op": "hook", "id": rng.randrange(0, max(1, next_id)), "do": "raise"})
+        elif r < 0.87:
+            ops.append({"op": "reset_cache"})
         else:
             ops.append({"op": "set_state", "id": rng.randrange(0, max(1, next_id + 1)), "state": rng.choice(STATES)})
     return {"property": PROPERTY, "kind": "ops", "ops": ops, "seed": spec["seed"] % (2**32)}
@@ -196,6 +205,28 @@ def shadow_apply(sh, op):
     elif k == "set_state":
         if op["id"] in sh["live"]:
             sh["live"][op["id"]][1] = op["state"]
+    elif k == "hook":
+        sh.setdefault("hooks", {})[op["id"]] = {x: y for x, y in op.items() if x not in ("op", "id")}
+    elif k == "reset_cache":
+        # Model.reset_cache() gives every live agent its reset_cache() callback, in creation order (a newcomer created by a
+        # callback is live, so it gets its own); a callback that raises ends the walk.  (reset() discards the agents: no callbacks)
+        done = set()
+        hooks = sh.setdefault("hooks", {})
+        sh["raised"] = False
+        while True:
+            todo = [i for i in sh["live"] if i not in done]
+            if not todo:
+                break
+            i = todo[0]
+            done.add(i)
+            h = hooks.pop(i, None)
+            if h is None:
+                continue
+            if h["do"] == "create":
+                shadow_apply(sh, {"op": "create", "type": h["type"]})
+            else:
+                sh["raised"] = True
+                break
 
 
 def compare(model, sh, res, where):
@@ -278,10 +309,31 @@ def run_history(ops_or_syms, res, log, symbolic):
             model.world.apply_op(model, op)
             failed = False
         except Exception as e:
+            if op["op"] == "reset_cache":
+                # the caller shrugs off a failing callback; the registry is what the callbacks before it left
+                shadow_apply(sh, op)
+                if not sh.get("raised"):
+                    res.violate("C14.operation-raised", {"op": op, "exception": type(e).__name__, "where": n})
+                    return destructive
+                res.probe("callback_failed_inside_reset_cache")
+                if not compare(model, sh, res, n):
+                    return destructive
+                continue
             if op["op"] != "configure_bad":
                 res.violate("C14.operation-raised", {"op": op, "exception": type(e).__name__, "where": n})
                 return destructive
             failed = True
+        if op["op"] == "reset_cache" and not failed:
+            before_ = len(sh["live"])
+            shadow_apply(sh, op)
+            if sh.get("raised"):
+                res.violate("C14.callback-not-called", {"op": op, "where": n})
+                return destructive
+            if len(sh["live"]) > before_:
+                res.probe("creation_inside_reset_cache_callback")
+            if not compare(model, sh, res, n):
+                return destructive
+            continue
         if failed:
             # which population survives a failed reconfiguration is not prescribed (nothing, a part, or the old
             # one after a rollback are all fine): take it from the list of agents, then the queries must agree with it
